@@ -120,6 +120,8 @@ def chunk_run(args):
             plan.append((s, a3, b3, d[:2]))
         for si, (sched, oa, ob, od) in enumerate(plan):
             variant = r.choice(["plain", "plain", "save", "remove"]) if si % 2 else "plain"
+            if od and si % 2:
+                variant = r.choice(["save", "remove", "remove"])
             ia = ib = idd = 0
             cur = FD
             on = 0
@@ -133,7 +135,7 @@ def chunk_run(args):
                     script += [{"op": "new", "on": 1}, {"op": "load", "slot": "s", "on": 1}]
                     on = 1
                 if variant == "remove" and pos == cut:
-                    victim = r.choice([FA, FB])
+                    victim = cur if cur in (FA, FB) and r.random() < 0.7 else r.choice([FA, FB])
                     started = (victim == FA and ia > 0) or (victim == FB and ib > 0)
                     if started:
                         script.append({"op": "remove_flow", "name": victim, "on": on})
@@ -195,7 +197,7 @@ def run(tier, seed):
     lib.build("debug")
     quick = tier == "quick"
     n = 16 if quick else 300
-    progs = common.gen_programs(n, seed, vars=2, flows=2, turns=0.0, knots=2, stmts=3, threads=0.0)
+    progs = common.gen_programs(n, seed, vars=2, flows=2, turns=0.0, knots=2, stmts=4, threads=0.0, temps=3.0)
     design = dict(states=0, distinct=0)
     scheds2, scheds3 = SchedCache(wd, design), SchedCache(wd, design)
     args = [(i, ch, tier, seed, wd, scheds2, scheds3) for i, ch in enumerate(runner.chunked(progs, 4 if quick else 10))]
